@@ -210,7 +210,6 @@ namespace sim
 		int const version = m_out_buffer[0];
 		int const command = m_out_buffer[1];
 		m_command = command;
-		++m_cmd_counts[command - 1];
 
 		if (version != m_version)
 		{
@@ -229,6 +228,7 @@ namespace sim
 				close_connection();
 				return;
 			}
+			++m_cmd_counts[command - 1];
 
 			std::uint16_t port = m_out_buffer[2] & 0xff;
 			port <<= 8;
@@ -270,6 +270,7 @@ namespace sim
 			close_connection();
 			return;
 		}
+		++m_cmd_counts[command - 1];
 
 		if (m_out_buffer[2] != 0)
 		{
